@@ -41,6 +41,17 @@ BASE_CFG = {
 }
 
 
+def project_attrs(d):
+    """memory attributes + paddress.NS of a returned AddressDescriptor -> the record Trace_Step compares (attr.* clauses)"""
+    m = d.memattrs
+    ty = {'NORMAL': 'NORMAL', 'DEVICE': 'DEV', 'STRONGLY_ORDERED': 'SO'}.get(getattr(m.type, 'name', None), 'BAD:%r' % (m.type,))
+
+    def num(v):
+        return int(v) if isinstance(v, (int, bool)) and 0 <= int(v) <= 3 else -1
+    return {'ty': ty, 'ia': num(m.innerattrs), 'ih': num(m.innerhints), 'oa': num(m.outerattrs), 'oh': num(m.outerhints),
+            'sh': num(m.shareable), 'osh': num(m.outershareable), 'ns': num(d.paddress.ns)}
+
+
 def make_config(**over):
     """Write a configuration file (the implementation's own JSON format) and return its path."""
     cfg = json.loads(json.dumps(BASE_CFG))
@@ -330,6 +341,7 @@ def _run_action(arm, act):
                     pa = d.paddress.physicaladdress
                     r = None
                     arm._res = [pa >> 32, limbs(pa & 0xFFFFFFFF)] if isinstance(pa, int) and 0 <= pa < 1 << 40 else [-1, [-1, 0]]
+                    arm._attrs = project_attrs(d)
                 if n.endswith('Get'):
                     arm._res = [(r >> (8 * i)) & 0xFF for i in range(size)] if isinstance(r, int) and 0 <= r < 1 << (8 * size) else [-1]
             except DataAbortException:
@@ -367,4 +379,7 @@ def step_event(arm, eid, base, pre_state, act):
     if getattr(arm, '_res', None) is not None:
         ev['res'] = arm._res
         arm._res = None
+    if getattr(arm, '_attrs', None) is not None:
+        ev['attrs'] = arm._attrs
+        arm._attrs = None
     return ev, post
